@@ -131,6 +131,8 @@ func init() {
 			c.CallOrder(ob2, "order:RunProgram:statements-after-fetch", run, reachesAvoiding(c, fetch, gb), reachesFn(c, runSt), "statements run only after the balances were fetched")
 			obFetchFirst(c, "C10.2b")
 			obQueryComplete(c, "C10.2c")
+			ob2e := c.R.Ob("C10.2e", "ctrl/query-filter", "an account enters the query sent to the store where one of its assets was found missing from the cache", 1)
+			c.QueryFilterOnMiss(ob2e, ir.Fetch)
 			ob2d := c.R.Ob("C10.2d", "ctrl/loop-complete", "the balance-collecting traversal leaves a loop over child nodes only when the list is exhausted or with an error", 1)
 			c.TraversalLoopsComplete(ob2d, ir.Prefetch, ir.PrefetchStmt)
 			obCacheMergeOnly(c, "C10.3")
